@@ -70,6 +70,10 @@ extern unsigned long ALLOC_MAX;      /* allocator_traits::max_size () */
 #ifndef SWAP_MAY_THROW
 #define SWAP_MAY_THROW 0
 #endif
+/* allocate () may fail (not in the constant-evaluation class: a throw is not a constant expression) */
+#ifndef ALLOC_MAY_THROW
+#define ALLOC_MAY_THROW 1
+#endif
 
 /* ---- watched cells (section 4.1): NW arbitrary cells + one tracked temporary cell ---------- */
 #define NW 2
